@@ -194,11 +194,13 @@ def Period.subperiods (p : Period) (u : DUnit) : Except String (List Period) :=
   | .weekday => do offsetsFrom p.firstWeekday .weekday (← p.sizeInWeekdays)
   | .eternity => .error "value"
 
-/-- `Period.contains` (tuple comparison of instants) -/
-def Period.contains (p q : Period) : Except String Bool := do
-  let ps ← p.stop
-  let qs ← q.stop
-  .ok (decide (p.start.le q.start ∧ qs.le ps))
+/-- `Period.contains` (tuple comparison of instants; `and` short-circuits) -/
+def Period.contains (p q : Period) : Except String Bool :=
+  if p.start.le q.start then do
+    let ps ← p.stop
+    let qs ← q.stop
+    .ok (decide (qs.le ps))
+  else .ok false
 
 def Date.max' (a b : Date) : Date := if a.lt b then b else a
 def Date.min' (a b : Date) : Date := if b.lt a then b else a
